@@ -99,6 +99,12 @@ def run(tier, seed):
         sources.append(("cpu_" + cpu, cpusrc[cpu]))
         vhist["cpu_" + cpu] = pick_o
 
+    # the ELF writer pads .text to the CPU's alignment (as in C03: the granule of the span clause)
+    ALIGNS = {c["name"]: c["align"] for c in K.cpu_list(vdir)}
+
+    def gran_of(src):
+        first = src.lstrip().split("\n")[0].strip()
+        return max(4, ALIGNS.get(first[1:].split()[0] if first.startswith(".") else "", 4))
     # (a) in-process histories
     cases = []
     for gid, src in sources:
@@ -169,7 +175,7 @@ def run(tier, seed):
                 body = b"\n".join(l for l in data.split(b"\n") if not l.startswith(b"S0"))
             digests.setdefault((gid, typ), set()).add(hashlib.md5(body).hexdigest())
             events.append({"id": "%s|%s" % (gid, how), "kind": "file", "how": how, "type": typ, "img": T.runs_hl(r["img"]),
-                           "low": T.hl(r["low"]), "high": T.hl(r["high"]), "gran": 4, "file": T.LEXERS[typ](data), "syms": []})
+                           "low": T.hl(r["low"]), "high": T.hl(r["high"]), "gran": gran_of(src) if typ == "elf" else 4, "file": T.LEXERS[typ](data), "syms": []})
     for (gid, typ), ds in digests.items():
         if len(ds) > 1:
             chk.report("cli:bytes-differ:%s" % typ, "the %s output of one source differs between option sets/output names (%s)" % (typ, gid),
